@@ -179,6 +179,52 @@ func Ask(m *core.Model, c *Cfg, x *Ctx, r *Request) Outcome {
 	return decodeOutcome(ans, strings.Fields(ans))
 }
 
+// SeqEvent is one message handled by the process in a history (Model/ReqSeq.lean `Event`): a client request read
+// by the listener with configuration Cfg on a connection described by Ctx, or (RespFields set, the rest nil) an
+// origin response passing through.
+type SeqEvent struct {
+	Cfg        *Cfg
+	Ctx        *Ctx
+	Req        *Request
+	RespFields []rig.Field
+}
+
+// AskSequence gives a whole history to the model at once (`REQ sequence`: `runProcess` folded over the events)
+// and returns the outcomes of the request events, in order.
+func AskSequence(m *core.Model, evs []SeqEvent) []Outcome {
+	line := []string{"REQ", "sequence"}
+	nreq := 0
+	for i, ev := range evs {
+		if i > 0 {
+			line = append(line, "|")
+		}
+		if ev.Req == nil {
+			var fs []string
+			for _, f := range ev.RespFields {
+				fs = append(fs, core.JoinList([]string{core.HexS(f.Name), core.HexS(f.Value)}))
+			}
+			line = append(line, "resp", "fields="+core.JoinList2(fs))
+			continue
+		}
+		nreq++
+		line = append(line, "req")
+		line = append(line, Tokens(ev.Cfg, ev.Ctx, ev.Req)...)
+	}
+	ans := m.MustAsk(line...)
+	var outs []Outcome
+	for _, part := range strings.Split(ans, " | ") {
+		f := strings.Fields(part)
+		if len(f) == 0 || f[0] == "resp" {
+			continue
+		}
+		outs = append(outs, decodeOutcome(part, f))
+	}
+	if len(outs) != nreq {
+		core.Fatalf("REQ sequence: %d outcomes for %d requests: %q", len(outs), nreq, ans)
+	}
+	return outs
+}
+
 func decodeOutcome(ans string, f []string) Outcome {
 	switch f[0] {
 	case "routeerr", "mitm", "tunnel":
